@@ -2,6 +2,7 @@ package main
 
 import (
 	"encoding/json"
+	"time"
 
 	cc "connectrpc.com/conformance/internal/app/connectconformance"
 	"connectrpc.com/conformance/internal/verifharness/gen"
@@ -16,8 +17,14 @@ import (
 // the seed), the thorough tier all six; they run beside everything else.
 
 func init() {
-	gen.RegisterOp("c09", "clientstall", func(_ *gen.Ctx, raw json.RawMessage) any {
-		return cc.VerifC09ClientStall(gen.Into[cc.VerifC09StallSpec](raw))
+	gen.RegisterOp("c09", "clientstall", func(c *gen.Ctx, raw json.RawMessage) any {
+		spec := gen.Into[cc.VerifC09StallSpec](raw)
+		obs, frozen := c09Steady(3*time.Second, func() cc.VerifC09StallObs { return cc.VerifC09ClientStall(spec) })
+		obs.FrozenMs = frozen
+		if frozen > 0 {
+			c.E.Count("clientstall:set-aside-machine-stalled")
+		}
+		return obs
 	})
 }
 
